@@ -166,6 +166,8 @@ TM_Evidence(o) == o.evid = o.evidAt
 \* the number of calls reported when run() returns = calls reported when it was entered + the points at which the user's likelihood
 \* was evaluated in between (also outside the pipeline steps: while resuming, after the last commit)
 TM_CallsExact(o) == o.callsReported = o.callsSeen
+\* committed history is append-only: what run() leaves behind is, batch by batch and quantity by quantity, what the commits stored
+TM_HistoryUntouched(o) == o.histSame
 
 -----------------------------------------------------------------------------
 (* Clause tables: the named clauses of each action as a record of booleans   *)
@@ -190,7 +192,7 @@ ME_Clauses(o) == [ME_Slots |-> ME_Slots(o), ME_Calls |-> ME_Calls(o), ME_Swept |
 CM_Clauses(o) == [CM_Append |-> CM_Append(o), CM_OnePerKey |-> CM_OnePerKey(o), CM_PrefixSame |-> CM_PrefixSame(o),
                   CM_Coherent |-> CM_Coherent(o), CM_NoInf |-> CM_NoInf(o), CM_BlobsVisible |-> CM_BlobsVisible(o), CM_ScalarsRecorded |-> CM_ScalarsRecorded(o),
                   CallsExact |-> calls = evals]
-TM_Clauses(o) == [TM_NearOne |-> TM_NearOne(o), TM_ESS |-> TM_ESS(o), TM_Evidence |-> TM_Evidence(o), TM_CallsExact |-> TM_CallsExact(o)]
+TM_Clauses(o) == [TM_NearOne |-> TM_NearOne(o), TM_ESS |-> TM_ESS(o), TM_Evidence |-> TM_Evidence(o), TM_CallsExact |-> TM_CallsExact(o), TM_HistoryUntouched |-> TM_HistoryUntouched(o)]
 
 All(c) == \A n \in DOMAIN c : c[n]
 Failing(c) == {n \in DOMAIN c : ~c[n]}
